@@ -23,7 +23,7 @@ class Rec:
         self.now = T0         # engine time of the current tick (for UOD callbacks that stamp tag values)
 
 
-def make_uod(rec: Rec, durations: dict, out_values: dict | None = None, fail_at: dict | None = None):
+def make_uod(rec: Rec, durations: dict, out_values: dict | None = None, fail_at: dict | None = None, overlaps=None):
     """UOD with
        registers Out1 (write, safe_value=0), Out2 (write, no safe value), In1 (read)
        commands  CmdA, CmdB, CmdC (CmdB/CmdC overlap), each running `durations[name]` iterations (>=1),
@@ -88,7 +88,8 @@ def make_uod(rec: Rec, durations: dict, out_values: dict | None = None, fail_at:
     for name in ("CmdA", "CmdB", "CmdC", "SetOut1"):
         i, e, f = mk_cmd(name)
         b = b.with_command(name=name, exec_fn=e, init_fn=i, finalize_fn=f)
-    b = b.with_command_overlap(["CmdB", "CmdC"])
+    for ov in (overlaps if overlaps is not None else [["CmdB", "CmdC"]]):
+        b = b.with_command_overlap(list(ov))
     uod = b.build()
     uod.hwl.connect()
     return uod
@@ -97,7 +98,7 @@ def make_uod(rec: Rec, durations: dict, out_values: dict | None = None, fail_at:
 class Rig:
     """One engine + observers.  Use `with engine_rig(sym, pcode, ...) as rig:`."""
 
-    def __init__(self, sym, pcode: str, durations=None, out_values=None, fail_at=None, numbered=False):
+    def __init__(self, sym, pcode: str, durations=None, out_values=None, fail_at=None, numbered=False, overlaps=None):
         import openpectus.protocol.models as Mdl
         from openpectus.engine.engine import Engine, EngineTiming
         from openpectus.lang.exec.clock import WallClock
@@ -108,7 +109,7 @@ class Rig:
         self.out_values = out_values if out_values is not None else {}
         self.tick_errors = []      # exceptions escaping Engine.tick
         with sym.concrete():
-            uod = make_uod(self.rec, self.durations, self.out_values, fail_at)
+            uod = make_uod(self.rec, self.durations, self.out_values, fail_at, overlaps)
             self.engine = Engine(uod, EngineTiming(WallClock(), NullTimer(), 0.1, 1.0))
             for t in self.engine._iter_all_tags():
                 t.format_fn = None
